@@ -56,34 +56,49 @@ Record state := mkC {
   wire : nat -> list packet;
   emitted : list (N * N);
   delivered : list (nat * N);
-  since : nat -> nat        (* seconds since Connection.reader k last began a loop iteration *)
+  since : nat -> nat;       (* seconds since Connection.reader k last began a loop iteration *)
+  pinger : nat -> bool;     (* the goroutine `go c.ping()` of NewConnection is running *)
+  psince : nat -> nat       (* seconds since it last called Send *)
 }.
 
 Definition set_pc (s : state) (v : nat -> call_pc) : state :=
-  mkC v (reg s) (ch s) (next s) (status s) (broken s) (rq s) (loops s) (wire s) (emitted s) (delivered s) (since s).
+  mkC v (reg s) (ch s) (next s) (status s) (broken s) (rq s) (loops s) (wire s) (emitted s) (delivered s) (since s) (pinger s) (psince s).
 Definition set_reg (s : state) (v : list (N * nat)) : state :=
-  mkC (pc s) v (ch s) (next s) (status s) (broken s) (rq s) (loops s) (wire s) (emitted s) (delivered s) (since s).
+  mkC (pc s) v (ch s) (next s) (status s) (broken s) (rq s) (loops s) (wire s) (emitted s) (delivered s) (since s) (pinger s) (psince s).
 Definition set_ch (s : state) (v : nat -> option N) : state :=
-  mkC (pc s) (reg s) v (next s) (status s) (broken s) (rq s) (loops s) (wire s) (emitted s) (delivered s) (since s).
+  mkC (pc s) (reg s) v (next s) (status s) (broken s) (rq s) (loops s) (wire s) (emitted s) (delivered s) (since s) (pinger s) (psince s).
 Definition set_next (s : state) (v : nat) : state :=
-  mkC (pc s) (reg s) (ch s) v (status s) (broken s) (rq s) (loops s) (wire s) (emitted s) (delivered s) (since s).
+  mkC (pc s) (reg s) (ch s) v (status s) (broken s) (rq s) (loops s) (wire s) (emitted s) (delivered s) (since s) (pinger s) (psince s).
 Definition set_status (s : state) (v : nat -> bool) : state :=
-  mkC (pc s) (reg s) (ch s) (next s) v (broken s) (rq s) (loops s) (wire s) (emitted s) (delivered s) (since s).
+  mkC (pc s) (reg s) (ch s) (next s) v (broken s) (rq s) (loops s) (wire s) (emitted s) (delivered s) (since s) (pinger s) (psince s).
 Definition set_broken (s : state) (v : nat -> bool) : state :=
-  mkC (pc s) (reg s) (ch s) (next s) (status s) v (rq s) (loops s) (wire s) (emitted s) (delivered s) (since s).
+  mkC (pc s) (reg s) (ch s) (next s) (status s) v (rq s) (loops s) (wire s) (emitted s) (delivered s) (since s) (pinger s) (psince s).
 Definition set_rq (s : state) (v : nat -> nat) : state :=
-  mkC (pc s) (reg s) (ch s) (next s) (status s) (broken s) v (loops s) (wire s) (emitted s) (delivered s) (since s).
+  mkC (pc s) (reg s) (ch s) (next s) (status s) (broken s) v (loops s) (wire s) (emitted s) (delivered s) (since s) (pinger s) (psince s).
 Definition set_loops (s : state) (v : nat -> nat) : state :=
-  mkC (pc s) (reg s) (ch s) (next s) (status s) (broken s) (rq s) v (wire s) (emitted s) (delivered s) (since s).
+  mkC (pc s) (reg s) (ch s) (next s) (status s) (broken s) (rq s) v (wire s) (emitted s) (delivered s) (since s) (pinger s) (psince s).
 Definition set_wire (s : state) (v : nat -> list packet) : state :=
-  mkC (pc s) (reg s) (ch s) (next s) (status s) (broken s) (rq s) (loops s) v (emitted s) (delivered s) (since s).
+  mkC (pc s) (reg s) (ch s) (next s) (status s) (broken s) (rq s) (loops s) v (emitted s) (delivered s) (since s) (pinger s) (psince s).
 Definition set_emitted (s : state) (v : list (N * N)) : state :=
-  mkC (pc s) (reg s) (ch s) (next s) (status s) (broken s) (rq s) (loops s) (wire s) v (delivered s) (since s).
+  mkC (pc s) (reg s) (ch s) (next s) (status s) (broken s) (rq s) (loops s) (wire s) v (delivered s) (since s) (pinger s) (psince s).
 Definition set_delivered (s : state) (v : list (nat * N)) : state :=
-  mkC (pc s) (reg s) (ch s) (next s) (status s) (broken s) (rq s) (loops s) (wire s) (emitted s) v (since s).
+  mkC (pc s) (reg s) (ch s) (next s) (status s) (broken s) (rq s) (loops s) (wire s) (emitted s) v (since s) (pinger s) (psince s).
 
 Definition set_since (s : state) (v : nat -> nat) : state :=
-  mkC (pc s) (reg s) (ch s) (next s) (status s) (broken s) (rq s) (loops s) (wire s) (emitted s) (delivered s) v.
+  mkC (pc s) (reg s) (ch s) (next s) (status s) (broken s) (rq s) (loops s) (wire s) (emitted s) (delivered s) v (pinger s) (psince s).
+
+Definition set_pinger (s : state) (v : nat -> bool) : state :=
+  mkC (pc s) (reg s) (ch s) (next s) (status s) (broken s) (rq s) (loops s) (wire s) (emitted s) (delivered s)
+      (since s) v (psince s).
+Definition set_psince (s : state) (v : nat -> nat) : state :=
+  mkC (pc s) (reg s) (ch s) (next s) (status s) (broken s) (rq s) (loops s) (wire s) (emitted s) (delivered s)
+      (since s) (pinger s) v.
+
+(** Connection.ping(): for { time.Sleep(3 s); registerPing; err = c.Send(p); ... } never
+    returns, whatever Send answers: one pinger per Connection for its whole life,
+    across reconnects.  Time cannot run past the pinger's deadline without the
+    pinger acting (3 s of sleep plus scheduling slack, in ticks of one second). *)
+Definition ping_ticks : nat := 5.
 
 (** reconnectTimeout = 10 s, in ticks of one second: Connection.reader's select
     creates a fresh time.After(reconnectTimeout) in every loop iteration, i.e.
@@ -113,6 +128,8 @@ Inductive label :=
 | LTimeout (i : nat)
 | LUnregister (i : nat)
 | LDrop (k : nat)                  (* the TCP connection k dies; packets in flight are lost *)
+| LPingOk (k : nat)                (* the pinger's Send writes the ping (into the void if the connection is dead) *)
+| LPingSkip (k : nat)              (* the pinger's Send: "not connected yet" *)
 | LPingFail (k : nat)              (* the ping's Send fails: go c.reconnect() *)
 | LTick (k : nat)                  (* one second passes for the reader of connection k *)
 | LSilence (k : nat)               (* reader: 10 s without a packet: c.reconnect() *)
@@ -206,9 +223,18 @@ Section Step.
         if status s k && negb (broken s k)
         then Some (set_wire (set_broken s (cupd (broken s) k true)) (cupd (wire s) k []))
         else None
+    | LPingOk k =>
+        if pinger s k && status s k then Some (set_psince s (cupd (psince s) k 0)) else None
+    | LPingSkip k =>
+        if pinger s k && negb (status s k) then Some (set_psince s (cupd (psince s) k 0)) else None
     | LPingFail k =>
-        if status s k && broken s k then Some (set_rq s (cupd (rq s) k (S (rq s k)))) else None
-    | LTick k => Some (set_since s (cupd (since s) k (S (since s k))))
+        if pinger s k && (status s k && broken s k)
+        then Some (set_psince (set_rq s (cupd (rq s) k (S (rq s k)))) (cupd (psince s) k 0)) else None
+    | LTick k =>
+        if negb (pinger s k) || Nat.ltb (psince s k) ping_ticks
+        then Some (set_psince (set_since s (cupd (since s) k (S (since s k))))
+                              (cupd (psince s) k (S (psince s k))))
+        else None
     | LSilence k =>
         if status s k && Nat.leb silence_ticks (since s k)
         then Some (set_rq s (cupd (rq s) k (S (rq s k)))) else None
@@ -253,7 +279,10 @@ End Step.
 (** a fresh client: every connection established, nothing registered *)
 Definition init_state : state :=
   mkC (fun _ => CInit) [] (fun _ => None) 0 (fun _ => true) (fun _ => false)
-      (fun _ => 0) (fun _ => 0) (fun _ => []) [] [] (fun _ => 0).
+      (fun _ => 0) (fun _ => 0) (fun _ => []) [] [] (fun _ => 0) (fun _ => true) (fun _ => 0).
+
+(** connections built by the harness' dial hook (NewConnection without `go c.ping()`) *)
+Definition init_state_without_pinger : state := set_pinger init_state (fun _ => false).
 
 (** seconds since the reader of connection k last began a loop iteration, read
     off a trace: a tick adds one, every packet the reader receives (of any kind)
